@@ -602,6 +602,10 @@ func c19Races(c *runCtx, gb, tmpl string, id entity.Id, excl bool) {
 			map[string]any{"file": file, "holders": holders})
 		c.count(fmt.Sprintf("race/%s/holders=%d", rc.name, len(holders)))
 		c.nontrivial("race|" + rc.name)
+		if len(holders) == 1 && file != any(holders[0]) {
+			c.violation(cid, "C19/live-lock-removed", fmt.Sprintf("race %s: process %d holds the cache and is alive, but the lock file now names %v: the refused opener removed or replaced the holder's lock", rc.name, holders[0], file),
+				map[string]any{"point": rc.point, "first": trunc(p0.stderr.String(), 200)})
+		}
 		if len(holders) > 1 {
 			c.violation(cid, "C19/overlapping-open-"+rc.name, fmt.Sprintf("two processes opening at the same time (%s) both hold the cache; the lock file names process %v", rc.name, file),
 				map[string]any{"point": rc.point, "first": trunc(p0.stderr.String(), 200), "second": trunc(p1.stderr.String(), 200)})
